@@ -51,6 +51,15 @@ type cacheZone struct {
 	clock     func() int
 }
 
+// The second name is chosen so that the questions (n1.example, AAAA) and (n1.exampleAAA, A) - and their HTTPS / A
+// counterparts - only differ in where the name ends and the type begins: two questions, two cache entries.
+func cacheName(k string) string {
+	if k == "n2" {
+		return "n1.exampleAAA"
+	}
+	return k + ".example"
+}
+
 func (z *cacheZone) answer(id int, name string, qtype int) ([]byte, int) {
 	z.mu.Lock()
 	defer z.mu.Unlock()
@@ -58,7 +67,7 @@ func (z *cacheZone) answer(id int, name string, qtype int) ([]byte, int) {
 	switch name {
 	case "n1.example":
 		key = "n1"
-	case "n2.example":
+	case cacheName("n2"):
 		key = "n2"
 	}
 	if key == "" || qtype != z.typ {
@@ -167,7 +176,7 @@ func replayCacheCase(c *cacheCase, idx int, srv *dohServer, z *cacheZone, clock 
 			z.queries = nil
 			z.mu.Unlock()
 			ctx, cancel := context.WithTimeout(context.Background(), 10*time.Second)
-			r, err := res.Resolve(ctx, op.K+".example")
+			r, err := res.Resolve(ctx, cacheName(op.K))
 			cancel()
 			if envError(err) && !strings.Contains(err.Error(), "status code") {
 				return "ENV: " + err.Error()
